@@ -91,10 +91,16 @@ class CreateSubscription(Obligation):
     desc = 'SubscriptionManager::create_subscription abandoned at any await: no half-created subscription (registered but not handed to its topic)'
     bounds = {'pending_answers': 2, 'existing_subscriptions': 1}
 
-    def __init__(self, ctx, abandon=True):
+    def __init__(self, ctx, abandon=True, push=False):
         install_tokens(ctx)
         ctx.on_enqueue = default_reply
         self.abandon = abandon
+        self.push = push
+        if push:
+            self.id = 'C16.d-create-push-subscription'
+            self.required_covers = ('created',)
+            self.desc = ('SubscriptionManager::create_subscription for a subscription with a push endpoint, abandoned at any await or run to its end: whenever the '
+                         'subscription is registered in the manager it is also registered for push (a push subscription that exists but is never pushed is a half-created resource)')
         if not abandon:
             self.desc = 'SubscriptionManager::create_subscription run to completion: project mismatch -> error before any effect; name taken -> AlreadyExists, nothing created; else insert under the lock, attach to its topic, Ok after the reply'
 
@@ -116,22 +122,48 @@ class CreateSubscription(Obligation):
             p.assume(z3.Implies(eu, U['sub_iid'](et) <= nid0))     # manager invariant: ids in use never exceed next_id
         self_cell = Cell(state, 'state')
         lock = ArcCell(Cell(LockM('subscription_manager.state', self_cell)))
-        mgr = mk(ctx, 'SubscriptionManager', state=lock, push_registry=Opaque('push_registry'))
         nproj, nid = p.fresh('new_proj'), p.fresh('new_id')
         name = mk(ctx, 'SubscriptionName', project_id=StrTok(nproj), subscription_id=StrTok(nid))
-        info = mk(ctx, 'SubscriptionInfo', name=name, ack_deadline=S(z3.IntVal(10 * NS), 'Duration'), push_config=Enum('Option', 0, {}))
+        reg, push_cfg, pstate = Opaque('push_registry'), Enum('Option', 0, {}), None
+        if self.push:
+            pstate = Cell(mk_single(ctx, 'PushSubscriptionsRegistryState', MapM([])), 'pstate')
+            reg = mk(ctx, 'PushSubscriptionsRegistry', state=ArcCell(Cell(LockM('push_registry.state', pstate))))
+            cfgv = mk(ctx, 'PushConfig', 'subscriptions/subscription', endpoint=StrTok(p.fresh('endpoint')), oidc_token=Enum('Option', 0, {}), attributes=Enum('Option', 0, {}))
+            push_cfg = Enum('Option', 1, {1: (cfgv,)})
+        mgr = mk(ctx, 'SubscriptionManager', state=lock, push_registry=reg)
+        info = mk(ctx, 'SubscriptionInfo', name=name, ack_deadline=S(z3.IntVal(10 * NS), 'Duration'), push_config=push_cfg)
         fn = ctx.fn('SubscriptionManager', 'create_subscription')
         coro = run_to_end(ip.call_fn(fn, [Ref(Loc(Cell(mgr))), info, ArcTok(topic_tok, 'Topic')]))
         p.allow_closed = True
         susp = []
-        res, k = run_async(ip, p, coro, budget=PENDING_BUDGET, on_suspend=lambda i, log: susp.append(list(log)))
+        snaps = []
+
+        def snap():
+            if pstate is None:
+                return None
+            subs = fld(ctx, self_cell.v, 'State', 'subscriptions', 'subscriptions/subscription_manager')
+            return (subs.found(name), fld_single(ctx, pstate.v, 'PushSubscriptionsRegistryState').found(name))
+
+        def on_suspend(i, log):
+            susp.append(list(log))
+            snaps.append(snap())
+        res, k = run_async(ip, p, coro, budget=PENDING_BUDGET, on_suspend=on_suspend)
+        snaps.append(snap())
         same_project = U['topic_proj'](topic_tok) == nproj
         exists = z3.And(eu, U['sub_proj'](et) == nproj, U['sub_id'](et) == nid)
-        return {'susp': susp, 'res': res, 'log': list(p.log), 'k': k, 'same_project': same_project, 'exists': exists,
+        return {'snaps': snaps, 'susp': susp, 'res': res, 'log': list(p.log), 'k': k, 'same_project': same_project, 'exists': exists,
                 'state': self_cell, 'next_id': nid0, 'e_used': eu, 'e_iid': U['sub_iid'](et)}
 
     def post(self, ip, p, res):
         out = []
+        if self.push:
+            # the name was absent before (a name that is taken belongs to another subscription, whose registration is not this request's business)
+            for i, sn in enumerate(res['snaps']):
+                where = 'suspension %d' % (i + 1) if i < len(res['snaps']) - 1 else 'the end'
+                out.append(Claim('at %s: registered in the manager => registered for push' % where, z3.Implies(z3.Not(res['exists']), z3.Implies(sn[0], sn[1]))))
+            if res['res'].discr == 0:
+                out.append(Cover('created'))
+            return out
         for i, log in enumerate(res['susp']):
             m = mutating(log)
             inserted = any(e[0] == 'map-mutate' for e in m)
@@ -200,6 +232,7 @@ def obligations(ctx, cfg):
         Wrapper(ctx, 'Topic', 'remove_subscription', lambda c, p: [sym_name(c, p, 'SubscriptionName', 'n')], hint='topics/topic.rs'),
         Wrapper(ctx, 'Topic', 'delete', _no_args, hint='topics/topic.rs'),
         CreateSubscription(ctx),
+        CreateSubscription(ctx, push=True),
     ]
     from props.actor_steps import ReceiveDropped
     for v in ('PullMessages', 'AcknowledgeMessages', 'ModifyDeadline', 'GetInfo', 'GetStats', 'Delete'):
